@@ -22,6 +22,18 @@ CHECKS = {
             "rapid-generated nested-message cases over the five flavours (MarshalTo, Marshal-only, plain gogo, plain Google v1, plain Google v2 incl. well-known types and typed nil) x positions x failing stubs x inflated lengths; byte-exact oracle prefix|key|len|csproto.Marshal(m)|suffix on an exactly-sized buffer, decode-side cursor/equality/error-propagation oracle",
             "plain gogo is represented by gogo's descriptor.DescriptorProto (registered with gogo, XXX_ methods, no Marshal); Google v1 by a hand-written pre-APIv2 style struct with XXX_ methods",
             "property-based testing (rapid), byte-exact reference construction with refwire"),
+    "C13": ("lazy",
+            "rapid-generated schema-free messages (all wire types, repeated, packed, nested incl. empty, numbers up to 2^29-1) x random definitions (present/absent/nested/negative tags) x queries over all 26 typed accessors + NestedResult(s) through four access routes x {safe, fast} x {Decode function, Decoder}; oracle = reference wire parse of the same bytes + accessor table incl. error classes; mutated inputs: no panic",
+            "each requested number uses one wire type (documented precondition); error classes are compared with errors.Is/As, never by text; for a tag declared flat but not nested either not-defined error is accepted",
+            "property-based differential testing (rapid) against a reference parser + accessor model"),
+    "C14": ("lazy",
+            "rapid-generated programs (<= 40 ops: Decode, accessor queries incl. nested paths, Range, Close) over one pooled Decoder and a pool of inputs of differing shapes, under every option combination; model: each live handle must answer from its own input only; in safe mode every slice/string handed out is re-read after every later step, after Close and after a final re-decode of every input",
+            "sync.Pool is made deterministic for replay by running the check at GOMAXPROCS=1 with the GC run only between cases; misuse (use after Close, double Close) is not generated",
+            "model-based stateful property testing (rapid), programs generated as data"),
+    "C15": ("lazy",
+            "rapid-generated concurrent rounds: one shared Decoder, 2..64 goroutines released by a barrier, each looping Decode/read/compare-with-own-expectation/Close with generated yield points, GOMAXPROCS in {1,2,16}, binary built with -race (halt on first report); a round that races or returns foreign values is replayed from its journal in a fresh process",
+            "the Go scheduler is not owned by the harness: interleavings are sampled; what is claimed is 'no race on the executed paths + correct values in every sampled schedule'",
+            "randomised concurrent stress generated by rapid + Go race detector + per-goroutine reference oracle"),
     "C20": ("tools",
             "rapid-generated annotated-hex texts (random case, whitespace incl. inside a byte, comments with ';' and hex digits, corrupted variants) against the inverse of the renderer; rapid-generated valid and mutated wire sequences x random expand/strings path sets through dumpProto (working-tree source compiled into the harness) and the built binary (-file, stdin pipe, stdin file), read by a tolerant reader and compared with a refwire walk",
             "a line break inside a byte and path element 0 are outside the documented contract and not generated; field number 0 with a non-zero key is treated as ambiguous; string payloads rendered with -strings contain no line breaks",
